@@ -2188,3 +2188,17 @@ mod tests {
         let _decoded: DefaultEnr = COMMON_VALID_ENR.parse().unwrap();
     }
 }
+
+/// Verification hooks (off by default). `EnrKey::sign_v4` returns a `SigningError`, a type that
+/// is otherwise not nameable or constructible outside this crate; exposing it lets an external
+/// harness implement `EnrKey` for fault-injecting and variable-length-signature key types.
+#[cfg(feature = "verif-hooks")]
+pub mod verif_hooks {
+    pub use crate::keys::SigningError;
+
+    /// Constructs a [`SigningError`] carrying `msg`.
+    #[must_use]
+    pub fn signing_error(msg: &str) -> SigningError {
+        SigningError::new(msg)
+    }
+}
